@@ -415,7 +415,7 @@ def run_sharded(args, items, shards=None, timeout=900, env_extra=None, died_is_r
                 src = ["-in", fn]
             fo = open(os.path.join(tmpd, "out%d.json" % i), "w")
             fe = open(os.path.join(tmpd, "err%d.txt" % i), "w")
-            procs.append((subprocess.Popen([exe] + args + src, stdout=fo, stderr=fe, env=env), fo, fe, i))
+            procs.append((subprocess.Popen([exe] + [a.replace("{shard}", str(i)) for a in args] + src, stdout=fo, stderr=fe, env=env), fo, fe, i))
         results = []
         deadline = time.time() + timeout
         for p, fo, fe, i in procs:
